@@ -243,6 +243,13 @@ pub fn c09_case(long: bool) -> BoxedStrategy<Case> {
                     }
                 }
                 ops.push(Op::Churn { m, kb: (heap_kb / 8) as u16, size: 64 + (cyc % 5) as u16 * 24 });
+                if cyc % 3 == 1 {
+                    // allocation attempts that are turned away: two half-heap requests that must not wait for a
+                    // GC (`at_safepoint: false`); the second cannot fit.  Whatever they reserved is given back.
+                    ops.push(Op::AllocOpts { m, root: 240, size_class: 4, sem: 0, overcommit: false, at_safepoint: false, allow_oom: false });
+                    ops.push(Op::AllocOpts { m, root: 241, size_class: 4, sem: 0, overcommit: false, at_safepoint: false, allow_oom: false });
+                    ops.push(Op::AllocOpts { m, root: 242, size_class: 2, sem: 0, overcommit: false, at_safepoint: false, allow_oom: false });
+                }
                 if survive_first || cyc % 2 == 0 {
                     // everything survives one collection before it is dropped
                     ops.push(Op::Gc { m, force: true, exhaustive: cyc % 4 == 0 });
@@ -295,10 +302,22 @@ pub fn c10_case() -> BoxedStrategy<Case> {
                 }
             }
             ops.extend(tail);
+            let mut opts = vec![];
+            if v % 4 == 1 {
+                // a quarter of the cases end with a burst of half-heap requests that over-commit and may not
+                // wait for a GC, all kept reachable: the space's address range (2 x heap) runs out while the
+                // collector has no say, and each further request must just fail
+                opts.push(("__overcommit_unbounded".to_string(), "1".to_string()));
+                for i in 0..10u8 {
+                    ops.push(Op::AllocOpts { m: 0, root: 240 + i, size_class: 4, sem: 0, overcommit: true, at_safepoint: false, allow_oom: i % 2 == 0 });
+                }
+                ops.push(Op::DropAllRoots);
+                ops.push(Op::Gc { m: 0, force: true, exhaustive: true });
+            }
             // a third of the cases run with DynamicHeapSize(min, max = heap_kb): the current heap size then
             // starts below the maximum, and "larger than the maximum heap" differs from "larger than the heap now"
             let dyn_heap = if dyn_min_pct > 0 { Some(((heap_kb as u64 * dyn_min_pct as u64 / 100) as u32, heap_kb)) } else { None };
-            Case { plan: plan.to_string(), variant: variant_for(plan, v), heap_kb, dyn_heap, workers, mutators: 1, opts: vec![], copy_spin: 0, focus: "C10".into(), ops }
+            Case { plan: plan.to_string(), variant: variant_for(plan, v), heap_kb, dyn_heap, workers, mutators: 1, opts, copy_spin: 0, focus: "C10".into(), ops }
         })
         .boxed()
 }
